@@ -19,54 +19,55 @@ import (
 )
 
 type Scenario struct {
-	Seed       uint64
-	Focus      string
-	Brokers    int
-	Partitions int32
-	LogLen     []int
-	Stored     []int64 // pre-set committed offset per partition (-1 none; may be out of range)
-	Ghosts     int
-	Strategy   string
-	InitialOldest bool
-	AutoCommit bool
-	RetryMax   int
-	Version    sarama.KafkaVersion
-	Script     map[string]map[int]sarama.KError // kind -> n -> verdict (KError(-2) = drop the connection)
-	Sessions   int
-	Behaviour  []string // per session: drain | early | prefix
-	EarlyAfter []int    // per session: messages after which an "early" claim returns / a "prefix" claim stops marking
-	CancelAfterMs []int // per session: cancel the context after this many ms (0 = when all claims are idle)
-	CloseInSession int  // call group.Close() during this session instead of cancelling (-1 never)
-	Retention  int      // Consumer.Offsets.Retention in hours (0 = unset)
-	OffsetFaultAt map[int]sarama.KError // n-th ListOffsets request -> error code (claim creation fails)
-	CleanupMarks bool   // the handler marks, in Cleanup, everything its claims were delivered (documented use of Cleanup)
-	Follower   bool     // another member leads the group; this member gets FollowerParts
-	FollowerParts []int32
+	Seed             uint64
+	Focus            string
+	Brokers          int
+	Partitions       int32
+	LogLen           []int
+	Stored           []int64 // pre-set committed offset per partition (-1 none; may be out of range)
+	Ghosts           int
+	Strategy         string
+	InitialOldest    bool
+	AutoCommit       bool
+	RetryMax         int
+	Version          sarama.KafkaVersion
+	Script           map[string]map[int]sarama.KError // kind -> n -> verdict (KError(-2) = drop the connection)
+	Sessions         int
+	Behaviour        []string              // per session: drain | early | prefix
+	EarlyAfter       []int                 // per session: messages after which an "early" claim returns / a "prefix" claim stops marking
+	CancelAfterMs    []int                 // per session: cancel the context after this many ms (0 = when all claims are idle)
+	CloseInSession   int                   // call group.Close() during this session instead of cancelling (-1 never)
+	Retention        int                   // Consumer.Offsets.Retention in hours (0 = unset)
+	OffsetFaultAt    map[int]sarama.KError // n-th ListOffsets request -> error code (claim creation fails)
+	FinalCommitFault bool                  // no periodic commits; the one commit of the first session (the final one) is answered with a retriable error once
+	CleanupMarks     bool                  // the handler marks, in Cleanup, everything its claims were delivered (documented use of Cleanup)
+	Follower         bool                  // another member leads the group; this member gets FollowerParts
+	FollowerParts    []int32
 }
 
 type HEvent struct {
-	Seq     int
-	Session int
-	Kind    string // setup | claim-start | msg | claim-end | cleanup | return
-	P       int32
-	Off     int64
-	Member  string
-	Gen     int32
-	Err     string
-	T       int64 // ms since the scenario started
-	ByHarness bool // return events: the harness ended the session (cancel / Close), it did not end by itself
+	Seq       int
+	Session   int
+	Kind      string // setup | claim-start | msg | claim-end | cleanup | return
+	P         int32
+	Off       int64
+	Member    string
+	Gen       int32
+	Err       string
+	T         int64 // ms since the scenario started
+	ByHarness bool  // return events: the harness ended the session (cancel / Close), it did not end by itself
 }
 
 type Result struct {
-	Sc       *Scenario
-	Events   []HEvent
-	Reqs     []sarama.VerifSimGroupReq
-	NewErr   string
-	Hang     string
-	Panic    string
-	Errors   []string
-	Logs     map[int32]int
-	StoreEnd map[int32]int64
+	Sc        *Scenario
+	Events    []HEvent
+	Reqs      []sarama.VerifSimGroupReq
+	NewErr    string
+	Hang      string
+	Panic     string
+	Errors    []string
+	Logs      map[int32]int
+	StoreEnd  map[int32]int64
 	Life      []string // lifecycle hook events (C12 only)
 	LifePanic []string // panics recovered in sarama's own goroutines (C12 only)
 }
@@ -141,6 +142,20 @@ func Gen(seed uint64, focus string) *Scenario {
 	if sc.CleanupMarks && r.Bool() {
 		sc.Script = map[string]map[int]sarama.KError{}
 	}
+	if r.Chance(1, 8) {
+		// the final commit of the first session gets a retriable verdict once; the next attempt is accepted: what was
+		// marked must be committed when Consume returns
+		sc.FinalCommitFault = true
+		sc.AutoCommit = true
+		sc.CleanupMarks = true
+		sc.OffsetFaultAt = nil
+		sc.Ghosts = 0
+		sc.CloseInSession = -1
+		sc.Behaviour[0], sc.CancelAfterMs[0] = "drain", 0
+		code := []sarama.KError{sarama.ErrNotCoordinatorForConsumer, sarama.ErrOffsetsLoadInProgress, sarama.ErrRequestTimedOut}[r.Intn(3)]
+		sc.Script = map[string]map[int]sarama.KError{"commit": {1: code}}
+		return sc
+	}
 	if r.Chance(1, 4) {
 		sc.Follower = true
 		for p := int32(0); p < sc.Partitions; p++ {
@@ -198,20 +213,20 @@ func (sc *Scenario) String() string {
 	}
 	return fmt.Sprintf("seed=%d brokers=%d parts=%d log=%v stored=%v ghosts=%d strat=%s oldest=%v auto=%v retry=%d ver=%s script=[%s] sessions=%d beh=%v early=%v cancel=%v closeIn=%d",
 		sc.Seed, sc.Brokers, sc.Partitions, sc.LogLen, sc.Stored, sc.Ghosts, sc.Strategy, sc.InitialOldest, sc.AutoCommit, sc.RetryMax, sc.Version,
-		strings.Join(fs, ","), sc.Sessions, sc.Behaviour, sc.EarlyAfter, sc.CancelAfterMs, sc.CloseInSession) + fmt.Sprintf(" retention=%dh follower=%v/%v cleanupMarks=%v offsetFault=%v", sc.Retention, sc.Follower, sc.FollowerParts, sc.CleanupMarks, sc.OffsetFaultAt)
+		strings.Join(fs, ","), sc.Sessions, sc.Behaviour, sc.EarlyAfter, sc.CancelAfterMs, sc.CloseInSession) + fmt.Sprintf(" retention=%dh follower=%v/%v cleanupMarks=%v offsetFault=%v finalCommitFault=%v", sc.Retention, sc.Follower, sc.FollowerParts, sc.CleanupMarks, sc.OffsetFaultAt, sc.FinalCommitFault)
 }
 
 type handler struct {
-	res     *Result
-	sim     *sarama.VerifSim
-	mu      *sync.Mutex
-	session int
-	beh     string
-	early   int
-	idle    chan struct{} // closed when every started claim has seen all currently available messages
-	sc      *Scenario
-	started int
-	idleCnt int
+	res          *Result
+	sim          *sarama.VerifSim
+	mu           *sync.Mutex
+	session      int
+	beh          string
+	early        int
+	idle         chan struct{} // closed when every started claim has seen all currently available messages
+	sc           *Scenario
+	started      int
+	idleCnt      int
 	maxDelivered map[int32]int64
 }
 
@@ -336,6 +351,9 @@ func Run(sc *Scenario) *Result {
 	}
 	cfg.Consumer.Offsets.AutoCommit.Enable = sc.AutoCommit
 	cfg.Consumer.Offsets.AutoCommit.Interval = 4 * time.Millisecond
+	if sc.FinalCommitFault {
+		cfg.Consumer.Offsets.AutoCommit.Interval = 20 * time.Second // only the final commit of a session is sent
+	}
 	cfg.Consumer.Offsets.Retry.Max = 2
 	cfg.Consumer.Offsets.Retention = time.Duration(sc.Retention) * time.Hour
 	cfg.Consumer.Group.Heartbeat.Interval = 3 * time.Millisecond
@@ -563,7 +581,9 @@ type Fail struct{ Sig, Detail string }
 // Check evaluates the C07 / C12 oracles.
 func Check(res *Result) []Fail {
 	var fails []Fail
-	add := func(sig, format string, a ...interface{}) { fails = append(fails, Fail{sig, fmt.Sprintf(format, a...)}) }
+	add := func(sig, format string, a ...interface{}) {
+		fails = append(fails, Fail{sig, fmt.Sprintf(format, a...)})
+	}
 	sc := res.Sc
 	if res.NewErr != "" {
 		return nil
@@ -702,7 +722,7 @@ func Check(res *Result) []Fail {
 			// "Cleanup once; then, with auto-commit on, a final commit of the marked offsets; only then does Consume return":
 			// what the handler marked in Cleanup is in the coordinator's store when Consume returns (scenarios without
 			// scripted coordinator faults, where nothing can make the final commit fail)
-			if sc.AutoCommit && len(sc.Script) == 0 && e.Err == "" {
+			if sc.AutoCommit && (len(sc.Script) == 0 || sc.FinalCommitFault) && e.Err == "" {
 				for p, o := range cleanupMarks {
 					if store[p] < o {
 						add("C07:cleanup-mark-not-committed", "session %d: Cleanup marked partition %d at %d, the coordinator holds %d when Consume returns", e.Session, p, o, store[p])
@@ -715,9 +735,9 @@ func Check(res *Result) []Fail {
 	// every assigned partition gets its ConsumeClaim; a session that cannot give one ends
 	{
 		type sinfo struct {
-			setupT, returnT int64
+			setupT, returnT  int64
 			byHarness, setup bool
-			claimed         map[int32]bool
+			claimed          map[int32]bool
 		}
 		ss := map[int]*sinfo{}
 		get := func(n int) *sinfo {
